@@ -127,9 +127,39 @@ def str_fn(ex, state, name, sv, args):
     return _strfns[key](sv.t, *[a.t for a in args])
 
 
-def str_split(ex, state, sv, args):
-    from .values import Unsupported
-    raise Unsupported("str.split (needs a contract-level model)")
+_split_fns = {}
+
+
+def str_split(ex, state, sv, args, kind="split"):
+    """s.split() / s.split(sep[, n]) / s.rsplit(sep[, n]) / s.splitlines() on text (str only): a *sound over-approximation*.
+    The result is a function of the arguments (equal calls give equal lists) about which only the length facts that
+    callers rely on are known: at least one piece when a separator is given, at most n+1 pieces for a split limit n, and
+    with a limit of one exactly two pieces iff the separator occurs.  Nothing is known about the pieces themselves."""
+    from .values import VStr, VInt, Unsupported, simp
+    from .engine import HObj
+    if not isinstance(sv, VStr):
+        raise Unsupported("split on bytes (needs a contract-level model)")
+    SS = z3.SeqSort(z3.StringSort())
+    sep = args[0] if args and isinstance(args[0], VStr) else None
+    lim = args[1] if len(args) > 1 and isinstance(args[1], VInt) else None
+    key = (kind, sep is not None, lim is not None)
+    if key not in _split_fns:
+        sig = [z3.StringSort()] + ([z3.StringSort()] if sep is not None else []) + ([z3.IntSort()] if lim is not None else [])
+        _split_fns[key] = z3.Function("str_%s_%d%d" % (kind, int(sep is not None), int(lim is not None)), *(sig + [SS]))
+    fargs = [sv.t] + ([sep.t] if sep is not None else []) + ([lim.t] if lim is not None else [])
+    seq = _split_fns[key](*fargs)
+    n = z3.Length(seq)
+    if sep is not None:
+        state.assume(n >= 1)
+        ex.raise_if(state, z3.Length(sep.t) == 0, "ValueError")
+        if lim is not None:
+            state.assume(z3.Implies(lim.t >= 0, n <= lim.t + 1))
+            state.assume(z3.Implies(lim.t == 1, (n == 2) == z3.Contains(sv.t, sep.t)))
+        state.assume(z3.Implies(z3.Not(z3.Contains(sv.t, sep.t)), n == 1))
+    o = HObj("list")
+    o.items, o.seq, o.elem = None, seq, "str"
+    ex.notes["assumed"].add("str.%s is over-approximated (only length facts are modelled)" % kind)
+    return state.alloc(o)
 
 
 # ---- octet-wide bit operations between two symbolic operands (defined functions; the definition is only
